@@ -1,5 +1,5 @@
 (* allow-axioms:  *)
-From RRE Require Import Base.Sx Model.Join Proofs.JoinProofs.
+From RRE Require Import Base.Sx Model.Join Proofs.JoinProofs Proofs.JoinWmProofs.
 From Coq Require Import Permutation.
 Open Scope Z_scope.
 From RRE Require Import Properties.C14.
@@ -8,5 +8,11 @@ Check (C14_inner_join_exact_arrivals_partial : forall cond w ops,
   Permutation (concat (run_from cond w init ops)) (ref_join cond w (lefts ops) (rights ops))).
 Check (C14_interleaving_independent : forall cond w ops1 ops2,
   arrivals_only ops1 -> arrivals_only ops2 ->
+  lefts ops1 = lefts ops2 -> rights ops1 = rights ops2 ->
+  Permutation (concat (run_from cond w init ops1)) (concat (run_from cond w init ops2))).
+Check (C14_inner_join_exact_until_eviction : forall cond w ops, may_evict w [] ops = false ->
+  Permutation (concat (run_from cond w init ops)) (ref_join cond w (lefts ops) (rights ops))).
+Check (C14_interleaving_independent_until_eviction : forall cond w ops1 ops2,
+  may_evict w [] ops1 = false -> may_evict w [] ops2 = false ->
   lefts ops1 = lefts ops2 -> rights ops1 = rights ops2 ->
   Permutation (concat (run_from cond w init ops1)) (concat (run_from cond w init ops2))).
